@@ -131,6 +131,7 @@ sweep's corpus) -/
 def expectedFailingSenders : List String := [
   "genericTask.NextAction#1", "genericTask.run#1", "subProcess.NextAction#2", "subProcess.run#1",
   "harness.run#1", "ProcessSet.StartAll#1",
+  "ProcessSet.StartAll#2", "ProcessSet.run#1",   -- tracerProcess subscribes to a process tracer unregistered
   "Process.StartWith#1",   -- the completion monitor: handle from p.tracer, sends on p.subTracer
   "timer.eventDefinitionInstanceBuilder.NewEventDefinitionInstance#1", "id.Sno.RestoreIdGenerator#1"]
 
